@@ -108,6 +108,10 @@ def run(ctx):
     seen = set()
     for c in other:
         key = "corr:%s:%s" % (c["id"], c["kind"])
+        if c["id"].startswith("shared:"):
+            # one key per role pairing (thickness / matrix / call number vary inside it)
+            parts = c["id"].split(":")
+            key = "corr:shared:%s" % (parts[2] if len(parts) > 2 else parts[-1])
         if key in seen:
             continue
         seen.add(key)
